@@ -283,6 +283,42 @@ def dense_actuators(xml, rng):
   return render(coef)
 
 
+def dense_damping(mjm, scene_seed):
+  """Dense scenes: joint and tendon damping strong enough to matter in M - h*qDeriv (and in Euler's implicit damping):
+  70% of the tendons and 40% of the hinge/slide dofs get damping b with h * b * (J^T M^-1 J at qpos0) in 0.15-0.45.
+  Written into the compiled MjModel (like the flags), identically for every flag set of the scene."""
+  rng = np.random.default_rng(scene_seed + 4321)
+  d = mujoco.MjData(mjm)
+  mujoco.mj_forward(mjm, d)
+  Minv = np.linalg.inv(mw.dense_M(mjm, d.M))
+  h = float(mjm.opt.timestep)
+  n = 0
+  for t in range(mjm.ntendon):
+    rho = rng.uniform(0.15, 0.45)
+    if rng.random() < 0.7:
+      J = np.zeros(mjm.nv)
+      a, k = int(mjm.ten_J_rowadr[t]), int(mjm.ten_J_rownnz[t])
+      J[mjm.ten_J_colind[a : a + k]] = d.ten_J[a : a + k]
+      s = float(J @ Minv @ J)
+      if s > 1e-9:
+        mjm.tendon_damping[t] = rho / (h * s)
+        if t % 2 == 0:
+          mjm.tendon_dampingpoly[t] = [0.2 * rho / (h * s), 0.05 * rho / (h * s)]  # velocity-dependent damping coefficient
+        n += 1
+  for j in range(mjm.njnt):
+    rho, u, poly = rng.uniform(0.15, 0.45), rng.random(), rng.random() < 0.5
+    if int(mjm.jnt_type[j]) in (int(mujoco.mjtJoint.mjJNT_HINGE), int(mujoco.mjtJoint.mjJNT_SLIDE)) and u < 0.4:
+      i = int(mjm.jnt_dofadr[j])
+      mjm.dof_damping[i] = rho / (h * Minv[i, i])
+      if poly:
+        mjm.dof_dampingpoly[i] = [0.2 * mjm.dof_damping[i], 0.05 * mjm.dof_damping[i]]
+      n += 1
+    if int(mjm.jnt_type[j]) in (int(mujoco.mjtJoint.mjJNT_HINGE), int(mujoco.mjtJoint.mjJNT_SLIDE)) and mjm.jnt_stiffness[j] > 0 and j % 2 == 0:
+      # displacement-dependent stiffness (SPRING flag: passive force and, with ENERGY, the potential energy)
+      mjm.jnt_stiffnesspoly[j] = [0.3 * mjm.jnt_stiffness[j], 0.1 * mjm.jnt_stiffness[j]]
+  return n
+
+
 def build_scene(scene_seed, dense=False):
   rng = np.random.default_rng(scene_seed + 99)
   xml, mjm, feat, _ = gen.make_model(scene_seed, P_SCENE, accept=_step.well_conditioned)
@@ -394,6 +430,8 @@ def run_case(case):
   dis, en = flag_bits(S)
   mjm.opt.disableflags = dis
   mjm.opt.enableflags = en
+  if dense:
+    rec.cover("xi:strongly_damped_tendons_and_dofs", dense_damping(mjm, case["scene"]))
   try:
     m = mw.put_model(mjm)
   except (NotImplementedError, ValueError) as e:
@@ -539,10 +577,6 @@ def run_case(case):
 def requirements(agg, tier):
   unmet = []
   cov = agg["cover"]
-  import json, os  # TMPDUMP
-
-  if os.environ.get("C32_COVDUMP"):  # TMPDUMP
-    json.dump({"cover": cov, "tally": agg.get("tally")}, open(os.environ["C32_COVDUMP"], "w"), indent=1, default=str)  # TMPDUMP
   for k, f in FLAGS:
     nm = ("" if k == "d" else "en:") + f
     if cov.get("toggled:" + nm, 0) < 10:
